@@ -7,6 +7,7 @@ import ast
 from .. import AnalysisError
 from .. import terms as T
 from ..cfg import CFG, calls_in
+from ..model import walk_no_nested
 from ..mutants import M
 from ..spec import spec
 from .common import SELF, fold, loc_of, self_attr
@@ -136,6 +137,20 @@ def run(ctx):
            "restored history shifts that pairing for every later step", only=lambda f: f.key.endswith("history|mutated"))
     _reuse(ctx, _c11.run, ("C11.keys",), "C08res", "payload rule shared with C11: an extra that replaces the payload's 'meta' entry loses the checkpointed temperature, so the first increment after "
            "a resume is computed for a move from beta = 0", only=lambda f: "collision|" in f.key)
+    # ---- the evidence the sampler stored on the returned set is what the caller gets: the front end does not attach a density field to that set afterwards.
+    #      A weighted set (likelihood, prior and log_q all present) *recomputes* its evidence with the importance-sampling estimator whenever it is rebuilt
+    #      (to_namespace / to_numpy / save), which would replace the SMC estimate
+    A_ = repo.cls("aspire.aspire:Aspire")
+    spf = A_.methods["sample_posterior"]
+    call_ln = [n_.lineno for n_ in walk_no_nested(spf.node) if isinstance(n_, ast.Call) and isinstance(n_.func, ast.Attribute) and n_.func.attr == "sample"
+               and isinstance(n_.func.value, ast.Attribute) and n_.func.value.attr == "_sampler"]
+    attach = [n_ for n_ in walk_no_nested(spf.node) if isinstance(n_, ast.Attribute) and isinstance(n_.ctx, ast.Store) and n_.attr in ("log_q", "log_likelihood", "log_prior")
+              and call_ln and n_.lineno > call_ln[0]]
+    ctx.decide(bool(call_ln) and not attach, "C08.sum", spf.ident, loc_of(spf, attach[0] if attach else None),
+               "sample_posterior hands back the sampler's set without attaching density fields to it",
+               (f"after the sampler returned, sample_posterior stores `{ast.unparse(attach[0])}`: with all three densities present the set is a *weighted* set, and every rebuild of it "
+                "(sample_posterior(xp=...), to_numpy(), save()) recomputes log_evidence from importance weights -- the SMC estimate, the sum of the per-step ratios, is silently replaced") if attach else "",
+               disc="front-end")
     _reuse(ctx, _c11.run, ("C11.cut",), "C08cut", "cut-point rule shared with C11: a checkpoint taken before the iteration's ratio is recorded makes a resumed run drop that step from the evidence")
     S = repo.cls("aspire.samples:SMCSamples")
     N = T.app("len", self_attr("x"))
@@ -333,6 +348,9 @@ MUTANTS += [
     M("evidence total accumulated in place into the first recorded increment", "src/aspire/samplers/smc/base.py", "samples.log_evidence = samples.xp.sum(\n            asarray(self.history.log_norm_ratio, self.xp)\n        )",
       "samples.log_evidence = asarray(_running_total(self.history.log_norm_ratio), samples.xp)", "C08own.own",
       more=[("class SMCSampler(MCMCSampler):", "def _running_total(values):\n    total = values[0]\n    for value in values[1:]:\n        total += value\n    return total\n\n\nclass SMCSampler(MCMCSampler):")]),
+]
+MUTANTS += [
+    M("front end fills in the proposal density on the returned set", "src/aspire/aspire.py", "if xp is not None:\n            samples = samples.to_namespace(xp)", "if samples.log_q is None and self.flow is not None:\n            samples.log_q = samples.array_to_namespace(self.flow.log_prob(samples.x))\n        if xp is not None:\n            samples = samples.to_namespace(xp)", "C08.sum"),
 ]
 NEUTRALS = [
     M("loop adjusts the temperature after the search; the increment is taken at the adjusted one", "src/aspire/samplers/smc/base.py", "self.history.eff_target.append(\n                    self.current_target_efficiency(beta)\n                )",
